@@ -142,7 +142,8 @@ PROPS = {
     "C16": dict(
         lean_modules=["AlphaG.Props.C16"],
         required_theorems=["AlphaG.Helix.closest_t_range", "AlphaG.Helix.closest_t_range_real",
-                           "AlphaG.Helix.circle_case_optimal"],
+                           "AlphaG.Helix.circle_case_optimal", "AlphaG.Helix.hasDerivAt_distSq",
+                           "AlphaG.Helix.kepler_iff_stationary"],
         harness=[("c16", ["release"])],
         disagreement_is_failing_input=False,
         level_text="Lean theorems: for any carrier with a linear order and an atan2 of range [-pi, pi] the value returned by "
@@ -322,12 +323,12 @@ PROPS = {
                      "response tables are passed to the model inside each request (bit patterns of the built code's tables)"],
     ),
     "C01": dict(
-        lean_modules=["AlphaG.Props.C01"],
+        lean_modules=["AlphaG.Props.C01", "AlphaG.Props.C08Names"],
         required_theorems=["AlphaG.C01." + t for t in [
             "adc_total", "adc_no_overflow", "alpha16_ids_total", "chunk_total", "chunk_accessors_total", "pwb_total",
             "waveformAt_total", "decoded_chunk_valid", "pwbFromChunkBytes_total", "trg_total", "cbfifo_total",
-            "chronobox_ids_total"]],
-        harness=[(m, ["dev", "release"]) for m in ["c02", "c03", "c04", "c05", "c06", "c07"]],
+            "chronobox_ids_total"]] + ["AlphaG.C08.bankName_total"],
+        harness=[(m, ["dev", "release"]) for m in ["c02", "c03", "c04", "c05", "c06", "c07", "c08"]],
         disagreement_is_failing_input=False,
         oracle_failing_regex=r"panic",
         level_text="Every decoder is modelled panic-aware (each slice index, try_into().unwrap(), usize subtraction, unwrap() "
@@ -348,5 +349,34 @@ PROPS = {
              "truncation/extension and single-bit flip of small valid packets, random bytes with plausible prefixes, all cut "
              "patterns of FIFO streams), each run in a dev and a release build; distinct by request line",
         assumptions=["&[u8] lengths are <= isize::MAX"],
+    ),
+    "C08": dict(
+        lean_modules=["AlphaG.Props.C08", "AlphaG.Props.C08Names", "AlphaG.Props.C08Maps"],
+        required_theorems=["AlphaG.C08." + t for t in [
+            "name_accept_iff", "chronobox_accept_iff", "seq2_accept_iff", "name_injective", "name_denotes_one",
+            "board_tables_distinct", "bankName_total", "wire_bijection", "pad_bijection", "sim_eq_5000",
+            "before_first_map_errors", "no_gap", "no_shadowed_arm", "wire_in_column", "padColumnToWires_fibre"]],
+        harness=[("c08", ["dev", "release"])],
+        level_text="Lean theorems over tables and `match run_number` arms regenerated from the source text on every run: for "
+                   "every String (any length, any Unicode) the bank-name parsers accept exactly the 458 documented names "
+                   "(name_accept_iff), injectively, each denoting one (kind, board, channel), and never panic; board tables "
+                   "have distinct names/MACs/device ids with device_id = le32(mac[0..4]); for every run number with a map the "
+                   "wire map is a bijection of 8 boards x 32 channels onto 256 wires and the pad map a bijection of installed "
+                   "boards x 4 chips x 72 channels onto 32 x 576 pads (product of small kernel-checked bijections); the "
+                   "simulation run maps like run 5000; runs before the first map give an error, no gap after it, no shadowed "
+                   "arm; wire-to-pad-column association matches the geometry in exact rational arithmetic.",
+        level_note="Trusted: the translator's regex extraction of Rust consts and match arms (a failure to locate a table is an "
+                   "error; cross-checked by querying the real lookup functions over their whole domain in the harness: all "
+                   "documented names, 150 k sampled / 4.1 M exhaustive 4-char strings, runs at every threshold +-2 / 0..=20000 "
+                   "exhaustive in thorough), HashMap and lazy_static semantics; phi() floats are compared to 1e-12.",
+        technique="translator (source text -> generated Lean tables and arms) + Lean 4 kernel proofs over the generated tables "
+                  "+ differential correspondence check",
+        design_ref="DESIGN.md section 6, C08",
+        rule="cases: every documented name through every parser, 4-char strings over a 45-symbol alphabet (incl. multi-byte "
+             "characters at every position), per-position substitutions, truncations/extensions, lengths 0..8, all 4-byte "
+             "strings with < 4 chars; wire/pwb/pad maps per run number at thresholds +-2, edges and random; w2c/c2w/phi; "
+             "calibration dispatch; distinct by request line",
+        assumptions=["&str is modelled as a list of scalar values with its UTF-8 length",
+                     "HashMap::get and lazy_static initialisation are trusted"],
     ),
 }
